@@ -171,6 +171,25 @@ Theorem C14_generated_c_eq_model : forall k o,
 Proof. exact generated_c_eq_model. Qed.
 Print Assumptions C14_generated_c_eq_model.
 
+(* The part of InterfaceClass.__new__ that builds the class of an interface with interfacemethods, as
+   regenerated from interface.py on this run (the bases of the custom-methods class, the flag
+   decisions), gives the model's new_kls; [is_ic]: cls is InterfaceClass itself. *)
+Theorem C14_generated_new_eq_model : forall is_custom is_ic i cls l,
+  (is_ic = true -> cls = base_kls) -> l_plain l = false ->
+  gen_new_class is_custom is_ic i cls l = new_kls true i cls l.
+Proof. exact generated_new_eq_model. Qed.
+Print Assumptions C14_generated_new_eq_model.
+
+(* Interface DAGs (multiple inheritance, interfaces created by class statements or by calls): seen
+   from its last interface a DAG is the chain [dag_line dag] (the definitions on the metaclass line
+   of its class, under their own node numbers), so everything above applies to it: precedence,
+   and the C path equals the Python path. *)
+Theorem C14_dag_follows_precedence : forall p dag o,
+  py_call (type_of_chain p (dag_line dag)) o = spec (dag_line dag) o /\
+  c_call (type_of_chain p (dag_line dag)) o = py_call (type_of_chain p (dag_line dag)) o.
+Proof. intros p dag o. split; [apply call_follows_precedence | apply c_call_eq_py_call_any]. Qed.
+Print Assumptions C14_dag_follows_precedence.
+
 (* ------------------------------------------------------------------ non-vacuity *)
 
 (* the combination the property record names: conform returns None AND a hook raises AND an
@@ -250,3 +269,22 @@ Example C14_witness_generated :
     ([EvGetConform; EvCallConform; EvProvided; EvHook 0; EvHook 1],
      KRet WNull (Some (ERaised (User (mkExn EOther 7))))).
 Proof. split; vm_compute; reflexivity. Qed.
+
+(* DAGs: in the diamond A[__adapt__ -> 4] <- B[__adapt__ delegating], C(A) <- D the class of D is B's
+   whichever way D lists its bases; two unrelated roots that both bring custom methods cannot be
+   combined (metaclass conflict); InterfaceClass(...) forgets the custom class of its bases while
+   type(base)(...) keeps it. *)
+Example C14_witness_dag :
+  let a := mkNode [] HClass (Some (CAValue 4)) None false in
+  let b := mkNode [0] HClass (Some CADelegate) None false in
+  let c := mkNode [0] HClass None None false in
+  let o := mkObj CAbsent false [HValue 3] None in
+  py_call (type_of_chain true (dag_line [a; b; c; mkNode [1; 2] HClass None None false])) o =
+    ([EvGetConform; EvCustom 1; EvCustom 0], Return 4) /\
+  dag_line [a; b; c; mkNode [2; 1] HClass None None false] =
+    dag_line [a; b; c; mkNode [1; 2] HClass None None false] /\
+  dag_conflict [a; mkNode [] HClass None (Some PBTrue) false; mkNode [0; 1] HClass None None false] = true /\
+  dag_conflict [a; mkNode [] HClass None None false; mkNode [0; 1] HClass None None false] = false /\
+  snd (py_call (type_of_chain true (dag_line [a; mkNode [0] HCallIC None None false])) o) = Return 3 /\
+  snd (py_call (type_of_chain true (dag_line [a; mkNode [0] HCallType None None false])) o) = Return 4.
+Proof. vm_compute. repeat split; reflexivity. Qed.
